@@ -46,3 +46,21 @@ Theorem C14_interrupted_save_consistent : forall order fl st k m d wm wd n,
   consistent (failed_save save_cleanup_src order fl st k m d wm wd n) k = true.
 Proof. exact (fun order fl st k m d wm wd n => proj1 (proj2 (failed_save_safe order fl st k m d wm wd n))). Qed.
 Print Assumptions C14_interrupted_save_consistent.
+
+(* "No task is started after the interrupt": from whatever state the first KeyboardInterrupt leaves the coordinator and the
+   executor in, the except-branch of TaskCoordinator.run (cancel queued tasks, drain; on a second interrupt cancel again,
+   stop, collect once) starts no worker process (nstarts counts queued -> running transitions, compared with the number of
+   processes really started in every correspondence run) and records no submission, however it ends — for the handler read
+   from the current source (the second handler cancels before it stops). *)
+Require Import LT.Proofs.IntrStarts.
+Theorem C14_handler_starts_nothing : forall c fuel w1,
+  let w2 := snd (on_interrupt intr_params_src c fuel w1) in nstarts w2 = nstarts w1 /\ nsub w2 = nsub w1.
+Proof. exact (fun c fuel w1 => handler_starts_nothing intr_params_src c fuel w1 eq_refl). Qed.
+Print Assumptions C14_handler_starts_nothing.
+
+(* false for a second handler that stops without cancelling first: stop() frees a slot and the final collection starts a
+   task that was still queued *)
+Theorem C14_no_second_cancel_refuted : exists P c fuel w1,
+  ip_stop_cancels P = false /\ nstarts w1 < nstarts (snd (on_interrupt P c fuel w1)).
+Proof. exact no_second_cancel_refuted. Qed.
+Print Assumptions C14_no_second_cancel_refuted.
